@@ -2,6 +2,9 @@ package props
 
 import (
 	"fmt"
+	"go/token"
+	"os"
+	"path/filepath"
 	"strings"
 	"testing"
 	"unicode"
@@ -154,7 +157,7 @@ var c08BackCheck = register("C08", "c08.back", func(c *backCase) error {
 	return nil
 })
 
-const c08Rule = "C08: complete enumeration of 10 languages x 2048 indices. The word the API emits for index i (observed through crafted 12-word and 24-word sentences) must equal the golden list byte for byte, be non-empty, whitespace-free, NFKD-stable and pairwise distinct; and for every (language, index) the sentence containing that word is scanned over candidate last words (quick: the reference's solutions and their neighbours; thorough: all 2048) and the accepted set must be exactly the reference's solution set for that index. Non-trivial: every (language, index) pair; distinct by (kind, language, index)"
+const c08Rule = "C08: complete enumeration of 10 languages x 2048 indices. The word the API emits for index i (observed through crafted 12-word and 24-word sentences) must equal the golden list byte for byte, be non-empty, whitespace-free, NFKD-stable and pairwise distinct; and for every (language, index) the sentence containing that word is scanned over candidate last words (quick: the reference's solutions and their neighbours; thorough: all 2048) and the accepted set must be exactly the reference's solution set for that index. The source text of internal/wordlist/*.go is parsed and compared with the golden lists as well. Non-trivial: every (language, index) pair; distinct by (kind, language, index)"
 
 func TestC08_List(t *testing.T) {
 	cov.Rule(c08Rule)
@@ -197,4 +200,39 @@ func TestC08_Back(t *testing.T) {
 		}
 	}
 	cov.Exhaustive("10 languages x 2048 indices, validation maps the word back to its index")
+}
+
+// c08.source: the source text of internal/wordlist/<file>.go declares the canonical list
+// (the property's third observation point).
+var c08SourceCheck = register("C08", "c08.source", func(c *listCase) error {
+	l := mustLang(c.Lang)
+	path := filepath.Join(repoDir(), "internal", "wordlist", l.File()+".go")
+	src, err := os.ReadFile(path)
+	if err != nil {
+		return failf("C08 source-missing lang="+l.Name(), "cannot read %s: %v", path, err)
+	}
+	_, varName, list, perr := parseList(token.NewFileSet(), l.File()+".go", src)
+	if perr != nil {
+		return failf("C08 source-unparsable lang="+l.Name(), "internal/wordlist/%s.go: %v", l.File(), perr)
+	}
+	if varName != l.Name() {
+		return failf("C08 source-variable lang="+l.Name(), "internal/wordlist/%s.go declares %s, want %s", l.File(), varName, l.Name())
+	}
+	if !equalLists(list, ref.Golden(l)) {
+		return failf("C08 source-differs lang="+l.Name(), "internal/wordlist/%s.go is not the canonical list: %s", l.File(), firstListDiff(list, ref.Golden(l)))
+	}
+	return nil
+})
+
+func TestC08_Source(t *testing.T) {
+	cov.Rule(c08Rule)
+	for _, l := range allLangs() {
+		c := &listCase{Lang: l.Name()}
+		cov.Eval(2048)
+		cov.Class("source-text")
+		for i := 0; i < 2048; i++ {
+			cov.NonTrivial("source", []byte(c.Lang), []byte{byte(i), byte(i >> 8)})
+		}
+		judge(t, "c08.source", c08SourceCheck, c)
+	}
 }
